@@ -40,7 +40,10 @@ static const std::vector<std::string>& value_pool()
                                                 "--",    "-",     "--out",  "\xc3\xa4\xc3\xb6",
                                                 "a\nb",  "42",    "-x=1",   "12.5", " lead",   "=",
                                                 "t\tb",  "--a=b", "a;b",    "---",  "\r",      "007",
-                                                "-o",    "=x",    "value with  two blanks" };
+                                                "-o",    "=x",    "value with  two blanks",
+                                                "0",     "-1",    "2147483647", "-2147483648",
+                                                "123456789012", "3.25", "-0.125", "1000000",
+                                                "65535", "0.001" };
     return p;
 }
 
@@ -1045,11 +1048,35 @@ static std::string check_c02_typed(const Case& c, const Step& st, vf::Ctx& ctx)
                 if (args.as<double>(e.name) != std::strtod(t.c_str(), nullptr))
                     return "as<double>(" + e.name + ") differs from strtod";
             }
-            else if (t == "12.5")
+            else
             {
-                ctx.tag("c02:typed-double");
-                if (args.as<double>(e.name) != 12.5)
-                    return "as<double>(" + e.name + ") of \"12.5\" is not 12.5";
+                // wider integers and decimal fractions: [-]digits[.digits]
+                std::size_t i = !t.empty() && t[0] == '-' ? 1 : 0, digits = 0, frac = 0;
+                bool dot = false, ok = t.size() > i;
+                for (std::size_t k = i; k < t.size() && ok; ++k)
+                {
+                    if (t[k] == '.' && !dot && k > i && k + 1 < t.size())
+                        dot = true;
+                    else if (t[k] >= '0' && t[k] <= '9')
+                        (dot ? frac : digits)++;
+                    else
+                        ok = false;
+                }
+                if (ok && digits >= 1 && digits <= 15 && frac <= 6)
+                {
+                    ctx.tag(dot ? "c02:typed-double" : "c02:typed-int");
+                    if (args.as<double>(e.name) != std::strtod(t.c_str(), nullptr))
+                        return "as<double>(" + e.name + ") of " + vf::vis(t) + " differs from strtod";
+                    if (args.as<float>(e.name) != std::strtof(t.c_str(), nullptr))
+                        return "as<float>(" + e.name + ") of " + vf::vis(t) + " differs from strtof";
+                    if (!dot)
+                    {
+                        if (args.as<long long>(e.name) != std::strtoll(t.c_str(), nullptr, 10))
+                            return "as<long long>(" + e.name + ") of " + vf::vis(t) + " differs from strtoll";
+                        if (i == 0 && args.as<unsigned long>(e.name) != std::strtoul(t.c_str(), nullptr, 10))
+                            return "as<unsigned long>(" + e.name + ") differs from strtoul";
+                    }
+                }
             }
             if (args.as<std::string>(e.name) != t)
                 return "as<std::string>(" + e.name + ") differs from the given text";
